@@ -43,6 +43,15 @@ def launch(h, P, cmds, threads=1, timeout=60, seed=None, model=None):
         shutil.rmtree(d, ignore_errors=True)
 
 
+def launch_patient(h, P, cmds, threads=1, timeout=60, seed=None, model=None):
+    """launch; a run that hits the time limit is repeated once with five times the limit, so that a loaded machine is not taken for a
+    hang (a real hang hits the second limit as well)"""
+    rc, ranks, err = launch(h, P, cmds, threads=threads, timeout=timeout, seed=seed, model=model)
+    if rc == 124:
+        rc, ranks, err = launch(h, P, cmds, threads=threads, timeout=5 * timeout, seed=seed, model=model)
+    return rc, ranks, err
+
+
 def parse(recs):
     """records of one rank -> dict"""
     o = {"eig": {}, "vec": {}, "g": {}, "table": {}, "eval": {}, "chitable": {}, "chieval": {}, "done": False, "throws": []}
@@ -122,7 +131,7 @@ def run(chk):
         ref = refs[key]
         threads = rng.choice([1, 3, 4, 5]) if quick else rng.choice([1, 2, 3, 5, 7, max(1, 16 // P)])
         seed = rng.randint(1, 10 ** 6)
-        rc, ranks, err = launch(h, P, cmds_for(nc, split, clear), threads=threads, timeout=45 if quick else 90, seed=seed)
+        rc, ranks, err = launch_patient(h, P, cmds_for(nc, split, clear), threads=threads, timeout=45 if quick else 90, seed=seed)
         sig = "P=%d nc=%d %s %s %s" % (P, nc, "split" if split else "nosplit", "purge" if clear else "keep",
                                         "P>nc" if P > nc else ("P|nc" if nc % P == 0 else "P!|nc"))
         chk.case("%d %d %d %d %d" % (P, nc, split, clear, threads), sig, P > 1,
@@ -184,7 +193,7 @@ def run(chk):
     aref = parse(ranks[0])
     for P in ([5, 6] if quick else [5, 6, 7, 9, 12, 16]):
         seed = rng.randint(1, 10 ** 6)
-        rc, ranks, err = launch(h, P, acmd, threads=1, timeout=45, seed=seed, model=ATOM)
+        rc, ranks, err = launch_patient(h, P, acmd, threads=1, timeout=45, seed=seed, model=ATOM)
         chk.case("atom %d" % P, "P=%d atom (ranks > jobs)" % P, True, None)
         conf = {"P": P, "model": ATOM, "commands": acmd, "threads": 1, "delay_seed": seed, "harness": "h_c06"}
         if rc == 124:
@@ -245,7 +254,7 @@ def cold_stage(chk, h, quick, rng, reported):
             continue
         for P in ((2, 3, 5) if quick else (2, 3, 4, 5, 7, 8)):
             seed = rng.randint(1, 10 ** 6)
-            rc, ranks, err = launch(h, P, cmd, threads=2, timeout=60, seed=seed, model=COLD)
+            rc, ranks, err = launch_patient(h, P, cmd, threads=2, timeout=60, seed=seed, model=COLD)
             chk.case("cold %d %d" % (P, split), "P=%d cold model (parts without terms) %s" % (P, "split" if split else "nosplit"), True, None)
             conf = {"P": P, "model": COLD, "commands": cmd, "threads": 2, "delay_seed": seed, "harness": "h_c06"}
             key = "cold [%s]" % ("split" if split else "nosplit")
@@ -284,7 +293,7 @@ def subcomm_stage(chk, h, quick, rng, reported):
                 for P in ((ng, ng + 2) if quick else (ng, ng + 1, ng + 2, 2 * ng + 1, 3 * ng)):
                     cmd = "c2sub %d %d %d 5 %s %s\n" % (ng, split, clear, fr, " ".join("%d %s" % (len(g), " ".join("%d %d %d %d" % q for q in g)) for g in groups))
                     seed = rng.randint(1, 10 ** 6)
-                    rc, ranks, err = launch(h, P, cmd, threads=1, timeout=60, seed=seed)
+                    rc, ranks, err = launch_patient(h, P, cmd, threads=1, timeout=60, seed=seed)
                     chk.case("subcomm %s %d %d %d" % (name, P, split, clear), "sub-communicators (%s) %s P=%d" % (name, "split" if split else "nosplit", P), True, None)
                     conf = {"P": P, "model": MODEL, "commands": cmd, "threads": 1, "delay_seed": seed, "harness": "h_c06"}
                     key = "sub-communicators [%s]" % ("split" if split else "nosplit")
